@@ -1,6 +1,7 @@
 package e2
 
 import (
+	"crypto/sha256"
 	"fmt"
 
 	"github.com/bronlabs/bron-crypto/pkg/mpc"
@@ -29,7 +30,9 @@ type failProto struct {
 	thorough bool
 }
 
+// (DKLs23 runs of this clause use the SHA-256 suite)
 func c07FailingSource(env *SymEnv, p failProto, victim sharing.ID, k int) {
+	dklsHash = sha256.New
 	env.AssumeDrawsNonZero()
 	// honest run: count the victim's consumptions
 	tag0 := "c07f/" + p.Name + "/count"
